@@ -440,6 +440,8 @@ func (g *Genome) mutateAddNode(innovations InnovationsObserver, nodeIdGenerator 
 		g.geneInsert(gene1)
 		g.geneInsert(gene2)
 		g.nodeInsert(node)
+		// the phenotype built before this mutation knows nothing about the new node
+		g.Phenotype = nil
 		return true, nil
 	}
 	// failed to create node or connecting genes
